@@ -21,6 +21,15 @@ fn main() {
         println!("{} of 5 failed in {:?}", fails, started.elapsed());
         return;
     }
+    if std::env::args().nth(1).as_deref() == Some("pressure") {
+        let keys: u32 = std::env::args().nth(2).and_then(|s| s.parse().ok()).unwrap_or(500);
+        let readers: u8 = std::env::args().nth(3).and_then(|s| s.parse().ok()).unwrap_or(1);
+        let started = std::time::Instant::now();
+        let case = cached_verif::volume::PressureCase { keys, shards: 16, capacity: 16, cmd_buf: 64, readers, fresh: 2000, weight: std::env::args().nth(4).and_then(|s| s.parse().ok()).unwrap_or(1) };
+        let (observations, failure) = cached_verif::volume::run_pressure_case(&case);
+        println!("{} observations, failure {:?}, {:?}", observations, failure.map(|f| f.message), started.elapsed());
+        return;
+    }
     let path = std::env::args().nth(1).unwrap();
     let n: usize = std::env::args().nth(2).and_then(|s| s.parse().ok()).unwrap_or(50);
     let replay = read_replay(&path).unwrap();
